@@ -102,11 +102,26 @@ def _run_config(prop, cfg, tag, simulate=None):
         print(f"MACHINERY-FAILURE: TLC failed on configuration {tag}: {res.errors[:3]}")
         print("\n".join(res.tail[-30:]))
         sys.exit(2)
-    mism, leaves, steps, compared = engine.replay_all(cfg, expect)
+    ham_res = None
+    if getattr(cfg, "ham", False):
+        from .props.common import enumerate_points
+        from . import hamcheck
+        ham_res, pts = enumerate_points(prop, tag + "-hamterms", "Hamiltonian", {"MaxN": "3"},
+                                        ["Emit", "InRange", "Hermitian", "DriveLocal", "Counting"])
+        hamcheck.load_terms(pts)
+    mism, leaves, steps, compared, hookv = engine.replay_all(cfg, expect)
     cands = []
+    seen_h = set()
+    for pred, key, detail in hookv:
+        if (pred, key) in seen_h:
+            continue
+        seen_h.add((pred, key))
+        pre = expect[key[:-1]][2] if len(key) > 1 and key[:-1] in expect else None
+        cands.append((pred, key, expect[key][0], "render", pre, detail))
     bad_prefix = set(tuple(m["h"]) for m in mism)
     # model-level violations on states where the implementation agrees with the model
-    for key, (outs, rets, st, v) in expect.items():
+    for key, ex in expect.items():
+        outs, rets, st, v = ex[:4]
         if not v:
             continue
         if any(key[:n] in bad_prefix for n in range(2, len(key) + 1)):
@@ -145,6 +160,9 @@ def _run_config(prop, cfg, tag, simulate=None):
                     pre = tr["steps"][r["l"] - 2]["post"] if r["l"] >= 2 else tr["init"]
                     cands.append((pred, key, outs, "trace", pre))
     res.tail = res.tail[-20:]
+    if ham_res is not None:
+        res.distinct += ham_res.distinct
+        res.generated += ham_res.generated
     return {"tag": tag, "tlc": res, "expect": len(expect), "leaves": leaves, "steps": steps,
             "compared": compared, "mismatches": len(mism), "mismatch_samples": mism[:3],
             "drift_lines": drift, "traces_checked": traces_checked, "tv_states": tv_states,
@@ -157,8 +175,13 @@ def decide(prop, preds, runs, tier, t0, level_note=""):
     known = findings.load()
     viol, kf = [], {}
     for cfg, r in runs:
-        for pred, key, outs, src, pre in r["cands"]:
+        for cand in r["cands"]:
+            pred, key, outs, src, pre = cand[:5]
             sig = signature(pred, cfg, key, outs, pre)
+            if len(cand) > 5 and isinstance(cand[5], dict):
+                for k2, v2 in cand[5].items():
+                    if isinstance(v2, (str, int, bool)) and k2 not in sig:
+                        sig[k2] = v2
             e = findings.match(prop, sig, known)
             if e is not None:
                 kf.setdefault(e["id"], [e, 0])[1] += 1
